@@ -211,14 +211,16 @@ func renderField(key string, v Variant) string {
 // ---- field tables ----
 
 var (
-	h1 = fileEntry{"d41d8cd98f00b204e9800998ecf8427e", 1131, "hello_2.10-1.dsc", "devel", "optional"}
-	h2 = fileEntry{"0cc175b9c0f1b6a831c399e269772661", 725946, "hello_2.10.orig.tar.gz", "devel", "optional"}
-	h3 = fileEntry{"92eb5ffee6ae2fec3ad71c777531578f", 6132, "hello_2.10-1.debian.tar.xz", "devel", "optional"}
-	s1 = fileEntry{hash: "da39a3ee5e6b4b0d3255bfef95601890afd80709", size: 1131, name: "hello_2.10-1.dsc"}
-	s2 = fileEntry{hash: "86f7e437faa5a7fce15d1ddcb9eaeaea377667b8", size: 725946, name: "hello_2.10.orig.tar.gz"}
-	t1 = fileEntry{hash: "e3b0c44298fc1c149afbf4c8996fb92427ae41e4649b934ca495991b7852b855", size: 1131, name: "hello_2.10-1.dsc"}
-	t2 = fileEntry{hash: "ca978112ca1bbdcafac231b39a23dc4da786eff8147c4e72b9807785afee48bb", size: 725946, name: "hello_2.10.orig.tar.gz"}
-	t3 = fileEntry{hash: "3e23e8160039594a33894f6564e1b1348bbd7a0088d42c4acb73eeaed59c009d", size: 6132, name: "hello_2.10-1.debian.tar.xz"}
+	h1   = fileEntry{"d41d8cd98f00b204e9800998ecf8427e", 1131, "hello_2.10-1.dsc", "devel", "optional"}
+	h2   = fileEntry{"0cc175b9c0f1b6a831c399e269772661", 725946, "hello_2.10.orig.tar.gz", "devel", "optional"}
+	h3   = fileEntry{"92eb5ffee6ae2fec3ad71c777531578f", 6132, "hello_2.10-1.debian.tar.xz", "devel", "optional"}
+	hBig = fileEntry{"0123456789abcdef0123456789abcdef", 6442450944, "hello_2.10.orig-data.tar.xz", "devel", "optional"} // 6 GiB
+	h4G  = fileEntry{"fedcba9876543210fedcba9876543210", 4294967296, "hello_2.10.orig-big.tar.xz", "devel", "optional"}  // exactly 2^32
+	s1   = fileEntry{hash: "da39a3ee5e6b4b0d3255bfef95601890afd80709", size: 1131, name: "hello_2.10-1.dsc"}
+	s2   = fileEntry{hash: "86f7e437faa5a7fce15d1ddcb9eaeaea377667b8", size: 725946, name: "hello_2.10.orig.tar.gz"}
+	t1   = fileEntry{hash: "e3b0c44298fc1c149afbf4c8996fb92427ae41e4649b934ca495991b7852b855", size: 1131, name: "hello_2.10-1.dsc"}
+	t2   = fileEntry{hash: "ca978112ca1bbdcafac231b39a23dc4da786eff8147c4e72b9807785afee48bb", size: 725946, name: "hello_2.10.orig.tar.gz"}
+	t3   = fileEntry{hash: "3e23e8160039594a33894f6564e1b1348bbd7a0088d42c4acb73eeaed59c009d", size: 6132, name: "hello_2.10-1.debian.tar.xz"}
 )
 
 func depVariants() []Variant {
@@ -242,15 +244,16 @@ func dscFields() []FSpec {
 		{"Maintainer", "Maintainer", "scalar", []Variant{scalar("Santiago Vila <sanvila@debian.org>")}},
 		{"Uploaders", "Uploaders", "list", []Variant{list([]string{"Jane Roe <jane@example.org>", "John Doe <jd@example.org>"}, "Jane Roe <jane@example.org>, John Doe <jd@example.org>"),
 			list([]string{"Jane Roe <jane@example.org>"}, "Jane Roe <jane@example.org>"),
-			list([]string{"Jane Roe <jane@example.org>", "John Doe <jd@example.org>", "A B <c@d>"}, "Jane Roe <jane@example.org>,", "John Doe <jd@example.org>,", "A B <c@d>")}},
+			list([]string{"Jane Roe <jane@example.org>", "John Doe <jd@example.org>", "A B <c@d>"}, "Jane Roe <jane@example.org>,", "John Doe <jd@example.org>,", "A B <c@d>"),
+			list([]string{"Jane Roe <jane@example.org>", "Santiago Vila <sanvila@debian.org>", "Jane Roe <jane@example.org>"}, "Jane Roe <jane@example.org>, Santiago Vila <sanvila@debian.org>, Jane Roe <jane@example.org>")}},
 		{"Homepage", "Homepage", "scalar", []Variant{scalar("https://www.gnu.org/software/hello/")}},
 		{"Standards-Version", "StandardsVersion", "scalar", []Variant{scalar("4.6.2")}},
 		{"Build-Depends", "BuildDepends", "dep", depVariants()},
 		{"Build-Depends-Arch", "BuildDependsArch", "dep", depVariants()},
 		{"Build-Depends-Indep", "BuildDependsIndep", "dep", depVariants()},
-		{"Checksums-Sha1", "ChecksumsSha1", "sha1", []Variant{files("sha1", s1, s2), files("sha1", s1)}},
-		{"Checksums-Sha256", "ChecksumsSha256", "sha256", []Variant{files("sha256", t1, t2, t3), files("sha256", t1)}},
-		{"Files", "Files", "md5", []Variant{files("md5", h1, h2, h3), files("md5", h2), files("md5", h2, h1)}},
+		{"Checksums-Sha1", "ChecksumsSha1", "sha1", []Variant{files("sha1", s1, s2), files("sha1", s1), files("sha1", s1, hBig)}},
+		{"Checksums-Sha256", "ChecksumsSha256", "sha256", []Variant{files("sha256", t1, t2, t3), files("sha256", t1), files("sha256", t1, h4G, hBig)}},
+		{"Files", "Files", "md5", []Variant{files("md5", h1, h2, h3), files("md5", h2), files("md5", h2, h1), files("md5", h1, hBig, h4G)}},
 	}
 }
 
@@ -271,7 +274,7 @@ func changesFields() []FSpec {
 		{"Changes", "Changes", "scalar", []Variant{multi("", "hello (2.10-1) unstable; urgency=medium", ".", "  * New upstream release.", "  * Closes: #123456")}},
 		{"Checksums-Sha1", "ChecksumsSha1", "sha1", []Variant{files("sha1", s1, s2), files("sha1", s1)}},
 		{"Checksums-Sha256", "ChecksumsSha256", "sha256", []Variant{files("sha256", t1, t2), files("sha256", t1)}},
-		{"Files", "Files", "chfiles", []Variant{files("changes", h1, h2, h3), files("changes", h1)}},
+		{"Files", "Files", "chfiles", []Variant{files("changes", h1, h2, h3), files("changes", h1), files("changes", h1, hBig, h4G)}},
 	}
 }
 
@@ -283,7 +286,8 @@ func sourceParaFields() []FSpec {
 		{"Maintainer", "Maintainer", "scalar", []Variant{scalar("Santiago Vila <sanvila@debian.org>")}},
 		{"Uploaders", "Uploaders", "list", []Variant{list([]string{"Jane Roe <jane@example.org>", "John Doe <jd@example.org>"}, "Jane Roe <jane@example.org>, John Doe <jd@example.org>"),
 			list([]string{"Jane Roe <jane@example.org>"}, "Jane Roe <jane@example.org>"),
-			list([]string{"Jane Roe <jane@example.org>", "John Doe <jd@example.org>"}, "Jane Roe <jane@example.org>,", "John Doe <jd@example.org>")}},
+			list([]string{"Jane Roe <jane@example.org>", "John Doe <jd@example.org>"}, "Jane Roe <jane@example.org>,", "John Doe <jd@example.org>"),
+			list([]string{"Santiago Vila <sanvila@debian.org>", "Jane Roe <jane@example.org>", "Santiago Vila <sanvila@debian.org>"}, "Santiago Vila <sanvila@debian.org>, Jane Roe <jane@example.org>, Santiago Vila <sanvila@debian.org>")}},
 		{"Build-Depends", "BuildDepends", "dep", depVariants()},
 		{"Build-Depends-Indep", "BuildDependsIndep", "dep", depVariants()},
 		{"Build-Conflicts", "BuildConflicts", "dep", depVariants()},
@@ -421,8 +425,10 @@ func withAudit(fields []FSpec) []FSpec {
 				}
 			}
 		case "int":
-			for _, n := range ints {
-				f.Vars = append(f.Vars, intv(int(n)))
+			for _, n := range append(append([]int64{}, ints...), gen.AuditPow2()...) {
+				if n < 1<<31 {
+					f.Vars = append(f.Vars, intv(int(n)))
+				}
 			}
 		case "version":
 			for _, t := range gen.AuditStrings(gen.Versionish, 2) {
@@ -481,13 +487,13 @@ func withAudit(fields []FSpec) []FSpec {
 					f.Vars = append(f.Vars, files(alg, es...))
 				}
 			}
-			for _, n := range ints {
+			for _, n := range append(append([]int64{}, ints...), gen.AuditPow2()...) {
 				if f.Key != "Conffiles" {
 					alg := f.Kind
 					if alg == "chfiles" {
 						alg = "changes"
 					}
-					f.Vars = append(f.Vars, files(alg, fileEntry{"00ff", int(n), "big.tar", "devel", "optional"}))
+					f.Vars = append(f.Vars, files(alg, fileEntry{"00ff", int(n), fmt.Sprintf("big%d.tar", n), "devel", "optional"}))
 				}
 			}
 		}
